@@ -21,9 +21,9 @@ ASSUMPTIONS = [
     "position tolerance / (nu cos phi) x |sin(complex latitude)| + 16 eps (gamma), + 4 x 6e-14 (k), + calibrated series tail",
     "Reverse is judged through REF's own derivative (first-order Taylor about the forward point; second-order term < 1e-20 relative)",
     "Jacobian monitor: Richardson two-step central differences (2e-4 deg), tolerance 1.5e-9/cos(lat); skipped within 0.02 rad of the branch point and for k/k0>=50",
-    "exact class with f>=0.1 (not 'ellipsoids used in terrestrial geodesy') and the continued sheet at k/k0>20 report under separate narrow keys",
+    "exact class with f>=0.1 (not 'ellipsoids used in terrestrial geodesy') and the continued sheet at k/k0>20 (by the returned k or by the spherical lower bound cosh(x/(a k0))>20) report under separate narrow keys",
     "GEOGRAPHICLIB_PANIC hook: a silent Newton non-convergence (zetainv / sigmainv / tauf) during a judged call is a violation hook:C06/panic/<site>; "
-    "in the large-f / extendp-high-scale regimes it is only counted",
+    "in the large-f / extendp-high-scale regimes, and within 2e-8 deg of the branch point (lead decision), it is only counted",
     "the sign convention of y at lat = +-0 on the far side is not documented; it is only required to be the same in the series and the exact class",
 ]
 EXHAUSTIVE_SUBSPACES = []
